@@ -298,11 +298,13 @@ theorem execute_flatMap (fuel : Nat) (l : List StepOut) (c : Cache) :
 def heldAt (k : Nat) (x : Node) : Prop :=
   x ∈ pastedAt ordered succs targets size k ∨ (x ∈ targets ∧ x ∈ ordered.take (k * size))
 
-structure SInv (k : Nat) (c : Cache) : Prop where
-  held : ∀ x, x ∈ c.held ↔ heldAt ordered succs targets size k x
+/-- the state between steps `k-1` and `k` of a run that started from the cache `c0` (which holds
+user inputs only): `c0`'s inputs, the planned elements that are pasted, nothing else -/
+structure SInv (c0 : Cache) (k : Nat) (c : Cache) : Prop where
+  held : ∀ x, x ∈ c.held ↔ heldAt ordered succs targets size k x ∨ x ∈ c0.held
   inputs : ∀ x, x ∈ c.inputs ↔ x ∈ c.held
   edges : c.edges = []
-  log : c.log = ordered.take (k * size)
+  log : c.log = c0.log ++ ordered.take (k * size)
 
 theorem heldAt_sub {k : Nat} {x : Node} (h : heldAt ordered succs targets size k x) :
     x ∈ ordered.take (k * size) := by
@@ -310,13 +312,14 @@ theorem heldAt_sub {k : Nat} {x : Node} (h : heldAt ordered succs targets size k
   · exact (pastedAt_sub ordered succs targets size k h).1
   · exact h.2
 
-variable (ht : isTopo succs ordered = true) (hd : ordered.Nodup)
-  (hp : ∀ n ∈ ordered, ∀ p ∈ preds n, p ∈ ordered ∧ n ∈ succs p)
-include ht hd hp
+variable (c0 : Cache) (ht : isTopo succs ordered = true) (hd : ordered.Nodup)
+  (h0d : ∀ x ∈ c0.held, x ∉ ordered)
+  (hp : ∀ n ∈ ordered, ∀ p ∈ preds n, (p ∈ ordered ∧ n ∈ succs p) ∨ p ∈ c0.held)
+include ht hd h0d hp
 
 /-- calc phase: the elements of the block are computed one after the other, each exactly once,
 and nothing else is computed, because everything an element calls is held when its turn comes -/
-theorem calc_phase (fuel k : Nat) (c : Cache) (inv : SInv ordered succs targets size k c)
+theorem calc_phase (fuel k : Nat) (c : Cache) (inv : SInv ordered succs targets size c0 k c)
     (rest done : List Node) (c' : Cache)
     (hB : curBlock ordered size k = done ++ rest)
     (hh : c'.held = c.held ++ done) (hi : c'.inputs = c.inputs) (hl : c'.log = c.log ++ done)
@@ -345,19 +348,23 @@ theorem calc_phase (fuel k : Nat) (c : Cache) (inv : SInv ordered succs targets 
       have := (List.nodup_append.mp hd').2.2
       intro hc
       exact this n hc n (by simp) rfl
-    have hheld_sub : ∀ x, x ∈ c.held → x ∈ ordered.take (k * size) :=
-      fun x hx => heldAt_sub ordered succs targets size ((inv.held x).mp hx)
+    have hheld_sub : ∀ x, x ∈ c.held → x ∈ ordered.take (k * size) ∨ x ∈ c0.held :=
+      fun x hx => ((inv.held x).mp hx).imp (heldAt_sub ordered succs targets size) id
+    have hnB : n ∈ curBlock ordered size k := by rw [hB]; simp
+    have hnord : n ∈ ordered := mem_of_mem_block hnB
     have hn : n ∉ c'.held := by
       rw [hh]
       intro hc
       rcases List.mem_append.mp hc with hc | hc
-      · exact hnpre (List.mem_append_left _ (hheld_sub n hc))
+      · rcases hheld_sub n hc with hc | hc
+        · exact hnpre (List.mem_append_left _ hc)
+        · exact h0d n hc hnord
       · exact hnpre (List.mem_append_right _ hc)
-    have hnB : n ∈ curBlock ordered size k := by rw [hB]; simp
-    have hnord : n ∈ ordered := mem_of_mem_block hnB
     have hpreds : ∀ p ∈ preds n, p ∈ c'.held := by
       intro p hpm
-      obtain ⟨hpo, hsucc⟩ := hp n hnord p hpm
+      rcases hp n hnord p hpm with ⟨hpo, hsucc⟩ | hp0
+      case inr =>
+        rw [hh]; exact List.mem_append_left _ ((inv.held p).mpr (Or.inr hp0))
       have hpo' := hpo
       rw [eo] at hpo'
       have hpre := isTopo_pred_strict ht' hd' hpo' hsucc
@@ -365,6 +372,7 @@ theorem calc_phase (fuel k : Nat) (c : Cache) (inv : SInv ordered succs targets 
       rcases List.mem_append.mp hpre with hpt | hpd
       · apply List.mem_append_left
         rw [inv.held]
+        left
         by_cases hpt' : p ∈ targets
         · exact Or.inr ⟨hpt', hpt⟩
         · left
@@ -385,18 +393,18 @@ theorem calc_phase (fuel k : Nat) (c : Cache) (inv : SInv ordered succs targets 
       · exact Or.inr rfl
 
 /-- one step of the plan takes the state between steps `k` and `k+1` -/
-theorem step_inv (fuel k : Nat) (c : Cache) (inv : SInv ordered succs targets size k c) :
-    SInv ordered succs targets size (k + 1)
+theorem step_inv (fuel k : Nat) (c : Cache) (inv : SInv ordered succs targets size c0 k c) :
+    SInv ordered succs targets size c0 (k + 1)
       (execStep preds (fuel + 1) (stepAt ordered succs targets size k) c) := by
-  have hheld_sub : ∀ x, x ∈ c.held → x ∈ ordered.take (k * size) :=
-    fun x hx => heldAt_sub ordered succs targets size ((inv.held x).mp hx)
+  have hheld_sub : ∀ x, x ∈ c.held → x ∈ ordered.take (k * size) ∨ x ∈ c0.held :=
+    fun x hx => ((inv.held x).mp hx).imp (heldAt_sub ordered succs targets size) id
   have eT := accum_succ ordered size k
   rw [accum_eq_take_succ] at eT
   -- the block is disjoint from what came before
   have hdisj : ∀ x, x ∈ ordered.take (k * size) → x ∈ curBlock ordered size k → False :=
     fun x h1 h2 => nodup_take_drop_disjoint hd _ h1 (block_sub_drop h2)
   -- calc
-  obtain ⟨h1h, h1i, h1l, h1e⟩ := calc_phase ordered succs targets size preds ht hd hp fuel k c inv
+  obtain ⟨h1h, h1i, h1l, h1e⟩ := calc_phase ordered succs targets size preds c0 ht hd h0d hp fuel k c inv
     (curBlock ordered size k) [] c (by simp) (by simp) rfl (by simp) (by simp [inv.edges])
   generalize hc1 : (curBlock ordered size k).foldl (fun c n => evalNode preds (fuel + 1) n c) c = c1
     at h1h h1i h1l h1e
@@ -410,7 +418,9 @@ theorem step_inv (fuel k : Nat) (c : Cache) (inv : SInv ordered succs targets si
       refine ⟨by rw [h1h]; exact List.mem_append_right _ hb, ?_⟩
       rw [h1i, inv.inputs]
       intro hc
-      exact hdisj _ (hheld_sub _ hc) hb
+      rcases hheld_sub _ hc with hc | hc
+      · exact hdisj _ hc hb
+      · exact h0d _ hc (mem_of_mem_block hb)
   -- paste
   have hpaste := stepOut_paste ordered succs targets size k (pastedAt ordered succs targets size k)
   have hclear := stepOut_clear ordered succs targets size k (pastedAt ordered succs targets size k)
@@ -508,24 +518,33 @@ theorem step_inv (fuel k : Nat) (c : Cache) (inv : SInv ordered succs targets si
       rintro (⟨_, hk'⟩ | ⟨hxP, _⟩)
       · rw [hph] at hk'; cases hk'
       · exact (hP x hxP).2 hxt
-  have held_to : ∀ x, x ∈ c3.held → heldAt ordered succs targets size (k + 1) x := by
+  have clear_planned : ∀ x, x ∈ (stepAt ordered succs targets size k).clear → x ∈ ordered := by
+    intro x hx
+    rcases (mem_clear x).mp hx with ⟨hb, _⟩ | ⟨hP', _⟩
+    · exact mem_of_mem_block hb
+    · exact List.mem_of_mem_take (hP x hP').1
+  have held_to : ∀ x, x ∈ c3.held → heldAt ordered succs targets size (k + 1) x ∨ x ∈ c0.held := by
     intro x hx
     obtain ⟨h2, hnc⟩ := h3h x hx
-    apply S1 x ?_ hnc
     rcases h2h x h2 with h1 | hpm
     · rw [h1h] at h1
       rcases List.mem_append.mp h1 with h1 | h1
-      · exact Or.inl ((inv.held x).mp h1)
-      · exact Or.inr h1
-    · exact Or.inr ((mem_paste x).mp hpm).1
-  have to_inputs : ∀ x, heldAt ordered succs targets size (k + 1) x → x ∈ c3.inputs := by
+      · rcases (inv.held x).mp h1 with h1 | h1
+        · exact Or.inl (S1 x (Or.inl h1) hnc)
+        · exact Or.inr h1
+      · exact Or.inl (S1 x (Or.inr h1) hnc)
+    · exact Or.inl (S1 x (Or.inr ((mem_paste x).mp hpm).1) hnc)
+  have to_inputs : ∀ x, (heldAt ordered succs targets size (k + 1) x ∨ x ∈ c0.held) → x ∈ c3.inputs := by
     intro x hx
-    obtain ⟨h1, hnc⟩ := S2 x hx
     rw [h3i, h2i]
-    refine ⟨?_, hnc⟩
-    rcases h1 with h1 | h1
-    · left; rw [h1i, inv.inputs, inv.held]; exact h1
-    · exact Or.inr h1
+    rcases hx with hx | hx
+    · obtain ⟨h1, hnc⟩ := S2 x hx
+      refine ⟨?_, hnc⟩
+      rcases h1 with h1 | h1
+      · left; rw [h1i, inv.inputs, inv.held]; exact Or.inl h1
+      · exact Or.inr h1
+    · refine ⟨?_, fun hcl => h0d x hx (clear_planned x hcl)⟩
+      left; rw [h1i, inv.inputs, inv.held]; exact Or.inr hx
   refine ⟨?_, ?_, ?_, ?_⟩
   · intro x
     exact ⟨held_to x, fun hx => wf3.inputsHeld x (to_inputs x hx)⟩
@@ -535,7 +554,7 @@ theorem step_inv (fuel k : Nat) (c : Cache) (inv : SInv ordered succs targets si
     intro e hem
     have := wf3.edgeHead e hem
     exact this.2 (to_inputs _ (held_to _ this.1))
-  · rw [h3l, h2l, h1l, inv.log, eT]
+  · rw [h3l, h2l, h1l, inv.log, eT, List.append_assoc]
 
 end run
 
